@@ -210,23 +210,25 @@ def allocSizes (L : Layout ns) (s : Sizes ns) : Sizes ns :=
     else if i.val < L.nargs then s[i]
     else 0
 
+/-- `safeAddToBufferSize(&offset, &nbuffer, esz, nr, nc)` at running offset `off` (= `*nbuffer`):
+    `none` when it returns 0, else the byte capacity of the array and the new offset -/
+def safeAdd (align : Nat) (esz : Nat) (nr nc : Int) (off : Nat) : Option (Nat × Nat) :=
+  if nr < 0 ∨ nc < 0 then none
+  else if nc * nr ≥ two64 then none
+  else if nc * nr * esz ≥ two64 then none
+  else
+    let toAdd := (nc * nr * esz).toNat + SKIP align off
+    if toAdd ≥ two64 then none
+    else if off + toAdd ≥ two63 then none
+    else some ((nc * nr * esz).toNat, off + toAdd)
+
 /-- the `safeAddToBufferSize` loop: returns per-pointer byte capacities and the final `nbuffer` -/
 def allocLoop (L : Layout ns) (sa : Sizes ns) : List (Ptr ns) → Nat → Res (List Nat × Nat)
   | [], off => .ok ([], off)
   | p :: ps, off =>
-    let nr := sa[p.nr]
-    let nc := p.nc sa
-    let fail : Res (List Nat × Nat) := .reject s!"Invalid model: {p.name} too large."
-    if nr < 0 ∨ nc < 0 then fail
-    else if nc * nr ≥ two64 then fail
-    else if nc * nr * p.esz ≥ two64 then fail
-    else
-      let toAdd := (nc * nr * p.esz).toNat + SKIP L.align off
-      if toAdd ≥ two64 then fail
-      else if off + toAdd ≥ two63 then fail
-      else do
-        let (caps, tot) ← allocLoop L sa ps (off + toAdd)
-        .ok ((nc * nr * p.esz).toNat :: caps, tot)
+    match safeAdd L.align p.esz sa[p.nr] (p.nc sa) off with
+    | none => .reject s!"Invalid model: {p.name} too large."
+    | some (cap, off') => (allocLoop L sa ps off').bind fun r => .ok (cap :: r.1, r.2)
 
 structure Alloc where
   caps : List Nat
@@ -237,9 +239,7 @@ def makeModel (L : Layout ns) (s : Sizes ns) : Res Alloc := do
   if s[L.nbody] = 0 then .reject "Invalid model: nbody == 0"
   else if mapSum L s ≥ L.intMax / L.mapMul then
     .reject "Invalid model: size of nnames_map is larger than INT_MAX"
-  else do
-    let (caps, tot) ← allocLoop L (allocSizes L s) L.ptrs 0
-    .ok { caps := caps, nbuffer := tot }
+  else (allocLoop L (allocSizes L s) L.ptrs 0).bind fun r => .ok { caps := r.1, nbuffer := r.2 }
 
 /-- what `mj_makeModel` computes for `nbuffer` (used to state consistency of a model value) -/
 def nbufferOf (L : Layout ns) (s : Sizes ns) : Option Nat :=
@@ -249,21 +249,25 @@ def nbufferOf (L : Layout ns) (s : Sizes ns) : Option Nat :=
 
 /-! ## mj_validateReferences: the MJMODEL_REFERENCES loop -/
 
+/-- body of the X loop for entry `i` -/
+def refStep (L : Layout ns) (r : Ref ns) (target : Int) (adrs : List Int) (nums : Option (List Int)) (i : Nat) : Res Unit :=
+  match adrs[i]? with
+  | none => .hazard (.oobIndex r.name)
+  | some adr =>
+    match (match nums with | none => some (1 : Int) | some l => l[i]?) with
+    | none => .hazard (.oobIndex r.numText)
+    | some num =>
+      if num < 0 then .reject s!"Invalid model: {r.numText} is negative."
+      else if num > L.maxArray then .reject s!"Invalid model: {r.numText} is too large."
+      else if adr + num > L.intMax then .hazard (.intOverflow (r.name ++ "[i] + num"))
+      else if adr + num > target ∨ adr < -1 then .reject s!"Invalid model: {r.name} out of bounds."
+      else .ok ()
+
+/-- `for (int i=0; i<m->nadrs; i++)` of the X macro, from `i` for `todo` more iterations -/
 def refLoop (L : Layout ns) (r : Ref ns) (target : Int) (adrs : List Int) (nums : Option (List Int)) :
     (i : Nat) → (todo : Nat) → Res Unit
   | _, 0 => .ok ()
-  | i, todo + 1 =>
-    match adrs[i]? with
-    | none => .hazard (.oobIndex r.name)
-    | some adr =>
-      match (match nums with | none => some (1 : Int) | some l => l[i]?) with
-      | none => .hazard (.oobIndex r.numText)
-      | some num =>
-        if num < 0 then .reject s!"Invalid model: {r.numText} is negative."
-        else if num > L.maxArray then .reject s!"Invalid model: {r.numText} is too large."
-        else if adr + num > L.intMax then .hazard (.intOverflow (r.name ++ "[i] + num"))
-        else if adr + num > target ∨ adr < -1 then .reject s!"Invalid model: {r.name} out of bounds."
-        else refLoop L r target adrs nums (i + 1) todo
+  | i, todo + 1 => (refStep L r target adrs nums i).bind fun _ => refLoop L r target adrs nums (i + 1) todo
 
 def validateRef (L : Layout ns) (m : Model ns) (r : Ref ns) : Res Unit :=
   match m.arrays[r.arr]? with
@@ -691,26 +695,31 @@ def readBlobs : List (String × Nat) → Bytes → Res (List Bytes × Bytes)
       let (as, r) ← readBlobs bs rest'
       .ok (a :: as, r)
 
-/-- the `MJMODEL_POINTERS` read loop; `len` is `buffer_sz`, the read position is
-    `ptrbuf = len - rest.length` -/
+/-- one iteration of the `MJMODEL_POINTERS` read loop for pointer `p` with allocated capacity `cap`:
+    the truncation check, then `bufread` into `m->name`.  `len` is `buffer_sz`, the read position is
+    `ptrbuf = len - rest.length`.  Returns the bytes read and the unread rest. -/
+def readStep (intMax : Int) (len : Nat) (s : Sizes ns) (p : Ptr ns) (cap : Nat) (rest : Bytes) : Res (Bytes × Bytes) :=
+  let off := len - rest.length
+  (p.ncInt s intMax).bind fun ncv =>
+  let bytesU : Nat := ((p.esz : Int) * s[p.nr] * ncv % (two64 : Int)).toNat
+  if (off + bytesU) % two64 > len then
+    .reject s!"Truncated model file - ran out of data while reading {p.name}"
+  else
+    let num : Int := toI32 bytesU
+    if (off : Int) + num > len then .fatal "bufread: attempting to read outside model buffer"
+    else if num < 0 then .hazard .inputOverread
+    else match rdN rest num.toNat with
+      | none => .hazard .inputOverread
+      | some (a, rest') =>
+        if num.toNat > cap then .hazard (.arrayOverflow p.name) else .ok (a, rest')
+
+/-- the `MJMODEL_POINTERS` read loop -/
 def readArrays (intMax : Int) (len : Nat) (s : Sizes ns) : List (Ptr ns) → List Nat → Bytes → Res (List Bytes × Bytes)
   | [], _, rest => .ok ([], rest)
   | _ :: _, [], _ => .hazard (.oobIndex "pointer without allocation")
   | p :: ps, cap :: caps, rest =>
-    let off := len - rest.length
-    (p.ncInt s intMax).bind fun ncv =>
-    let bytesU : Nat := ((p.esz : Int) * s[p.nr] * ncv % (two64 : Int)).toNat
-    if (off + bytesU) % two64 > len then
-      .reject s!"Truncated model file - ran out of data while reading {p.name}"
-    else
-      let num : Int := toI32 bytesU
-      if (off : Int) + num > len then .fatal "bufread: attempting to read outside model buffer"
-      else if num < 0 then .hazard .inputOverread
-      else match rdN rest num.toNat with
-        | none => .hazard .inputOverread
-        | some (a, rest') =>
-          if num.toNat > cap then .hazard (.arrayOverflow p.name)
-          else (readArrays intMax len s ps caps rest').bind fun (as, r) => .ok (a :: as, r)
+    (readStep intMax len s p cap rest).bind fun ar =>
+    (readArrays intMax len s ps caps ar.2).bind fun r => .ok (ar.1 :: r.1, r.2)
 
 theorem decN_length (w k : Nat) (b : Bytes) : (decN w k b).length = k := by
   induction k generalizing b with
